@@ -1,6 +1,7 @@
 import Eru.Lock.ProofsRedis
 import Eru.Lock.ProofsEtcd
 import Eru.Lock.Ctx
+import Eru.Lock.ProofsSpec
 /-
 C19 — a holder is told promptly when it loses its lock.
 etcd: proved (`etcd_loss_cancels`, `etcd_loss_bound_assuming_urgency`, `pending_loss_watch_enabled`, `etcd_coexist_bound`).
@@ -117,6 +118,21 @@ theorem multi_key_no_false_alarm (lost : List Bool) (h : ∀ l ∈ lost, l = fal
 example : Ctx.seen false [true, false] = .cancelled ∧ Ctx.seen false [false, true] = .sessionDone ∧
     Ctx.seen false [false, false] = .live := by decide
 
+/-- **replay_meets_loss_spec_etcd.**  The C19 clauses of the spec the oracle evaluates
+    (`etcd-loss-not-signalled`, `cancelled-while-holding`; `signalled-late` needs a stopwatch) never fire
+    on the etcd model's own replay of any command list: a holder whose lease was revoked/expired has a
+    cancelled context when observed, a holder with a live lease never has.  (Same theorem as
+    C18.replay_meets_spec_etcd: the whole violation list is empty.) -/
+theorem replay_meets_loss_spec_etcd (p : Etcd.Params) (iv : Nat) (cs : List Etcd.Cmd) :
+    (Spec.specReplayEtcd p iv {} Etcd.init cs).viol = [] :=
+  Spec.je_replay iv cs {} Etcd.init (Spec.je_init p) (Etcd.good_init p)
+
+/-- the multi-key clause (`lost-lock-not-signalled:multi-key`) on the chained-context model: what the
+    callback sees according to `Ctx.seen` never violates `Spec.multiKeyViol` -/
+theorem multi_key_model_meets_spec (lost : List Bool) :
+    Spec.multiKeyViol lost (Ctx.seen false lost == .live) false = [] :=
+  Spec.multiKey_model_meets_spec lost
+
 /-! ## Redis -/
 
 /-- Full statement for Redis: a holder whose key expired at `e` has its context cancelled by `e + K`. -/
@@ -152,6 +168,27 @@ theorem redis_two_holders_live_ctx :
   have r4 := Redis.Reach.step r3 (Redis.Step.begin _ 1 .lock rfl)
   have r5 := Redis.Reach.step r4 (Redis.Step.attempt _ 1 .lock 1 0 1 rfl (Nat.le_refl _) (by decide))
   exact ⟨_, r5, ⟨0, rfl⟩, ⟨1, rfl⟩, Redis.ctx_never_cancelled r5 0, Redis.ctx_never_cancelled r5 1⟩
+
+/-- **replay_meets_loss_spec_redis.**  On the Redis model's own replay of any command list the ONLY
+    tag the spec can ever report is the finding D15 (`redis-ttl-expiry-not-signalled`): no false alarm
+    (`cancelled-while-holding`), no C18 tag. -/
+theorem replay_meets_loss_spec_redis (p : Redis.Params) (hp : 0 < p.wait) (cs : List Redis.Cmd) :
+    ∀ t ∈ (Spec.specReplayRedis p {} Redis.init cs).viol, t = Spec.tagD15 := by
+  apply Spec.jr_replay hp cs {} Redis.init _ .init
+  exact ⟨rfl, fun h hh => (by cases hh), fun t e h => (by simp [Redis.alive, Redis.init] at h),
+    fun c hc => (by cases hc), fun t h => (by cases h)⟩
+
+/-- … and within the lease there is nothing to report at all: if no `observe` of a schedule finds a
+    holder whose TTL has elapsed (D15 does not fire), the spec is silent -/
+theorem replay_meets_loss_spec_redis_within_lease (p : Redis.Params) (hp : 0 < p.wait) (cs : List Redis.Cmd)
+    (hwl : Spec.tagD15 ∉ (Spec.specReplayRedis p {} Redis.init cs).viol) :
+    (Spec.specReplayRedis p {} Redis.init cs).viol = [] := by
+  cases hv : (Spec.specReplayRedis p {} Redis.init cs).viol with
+  | nil => rfl
+  | cons t ts =>
+    have := replay_meets_loss_spec_redis p hp cs t (by rw [hv]; exact List.mem_cons_self)
+    rw [hv] at hwl
+    exact absurd (this ▸ List.mem_cons_self) hwl
 
 /-- **Partial**: while holders stay within the TTL (WithinLease) the premise never arises — a
     holder's key is present and unexpired, so there is no loss to be told about. -/
